@@ -54,7 +54,8 @@ PROBES = ['pop_client', 'pop_server', 'pop_attrs', 'replies_reordered',
           'bad_reply_unknown_id', 'bad_reply_dup_id', 'bad_reply_wrong_type',
           'bad_reply_short_body', 'bad_reply_extra_body',
           'malformed_request', 'unsupported_request', 'errno_mapped',
-          'v3', 'v4', 'v5', 'v6', 'realpath_without_control_byte']
+          'v3', 'v4', 'v5', 'v6', 'realpath_without_control_byte',
+          'init_below_v3']
 
 ERRNOS = ['ENOENT', 'EACCES', 'EEXIST', 'EROFS', 'ENOSPC', 'EDQUOT',
           'ENOTEMPTY', 'ENOTDIR', 'ENAMETOOLONG', 'ELOOP', 'EINVAL',
@@ -123,6 +124,10 @@ def gen_plan(rng):
 
         plan['reqs'] = reqs
         plan['pipeline'] = rng.chance(60)
+
+        if rng.chance(10):
+            plan['init_ver'] = rng.choice([0, 1, 2])
+            plan['version'] = 3
     else:
         fields = {}
 
@@ -164,6 +169,11 @@ def valid_plan(plan):
         if plan['pop'] == 'attrs' and plan['version'] == 3 and \
                 any(plan['fields'].get(f, 0) > 0xffffffff
                     for f in ('atime', 'mtime')):
+            return False
+
+        if 'init_ver' in plan and (plan['pop'] != 'server' or
+                                   plan['init_ver'] not in (0, 1, 2) or
+                                   plan['version'] != 3):
             return False
 
         if plan['pop'] == 'server':
@@ -480,9 +490,22 @@ def run_server(world, plan):
         raw = RawSftp(w, r)
 
         try:
-            got_ver, _ = await raw.init(ver)
+            got_ver, _ = await raw.init(plan.get('init_ver', ver))
             res['version'] = got_ver
             rid = 100
+
+            if 'init_ver' in plan:
+                # the client asked for a version older than any that is
+                # implemented: what the server says it will speak has to be
+                # one it does speak
+                sim.probes['init_below_v3'] += 1
+
+                if not 3 <= got_ver <= 6:
+                    world.violation(
+                        'unimplemented-version-agreed',
+                        'FXP_INIT %d answered with FXP_VERSION %d' %
+                        (plan['init_ver'], got_ver), sig='init')
+                    return
 
             async def read_reply():
                 p = await raw.recv()
